@@ -489,7 +489,7 @@ def check(res, tier, replay=None):
         "a failed bay_propagate ends the emulation (no state is compared after it)",
         "emit callbacks only read channels; PRV output of the derived rows is covered by X2",
     ]
-    prep = engine.prepare(res, drivers=("drv_bay", "drv_emu"))
+    prep = engine.prepare(res, drivers=("drv_bay", "drv_emu", "drv_rt"))
     proved = vcommon.prove(res, "C06")
     found = False
     if prep.bdir and prep.driver_ok:
@@ -528,6 +528,16 @@ def check(res, tier, replay=None):
             found = found or f2
             res.cov["x2_property_violations"] = bool(f2)
             res.cov["x2_cases"] = n2
+            # ---------------- X3: the run-time channel group (user marks) ----------------
+            # marks are channels of the ovni model created at run time, tracked "while active" on the thread
+            # row and "while running" on the CPU row like every other channel: the generator and the independent
+            # oracle of C17 (value shown exactly while the mode holds) are run here as part of the view topology
+            import c17
+            r3 = vcommon.rng("c06-marks")
+            n3 = 120 if tier == "quick" else 1500
+            f3 = c17.run_emu_cases(res, prep, [c17.gen_emu_case(r3, res) for _ in range(n3)])
+            found = found or f3
+            res.cov["x3_mark_cases"] = n3
         for b in res.cov.get("correspondence_breaks", [])[:3]:
             proved = False
             res.failed_obligations = getattr(res, "failed_obligations", []) + ["correspondence: " + b["what"] + "\n" + b["script"]]
